@@ -7,39 +7,79 @@ Line protocol of `drv_upgrade` (inputs only):
 Keys are dotted source expressions of `add_node` (`options.home_network`, `metrics_free_port`, …) and
 `@provided` / `@prev` (environment given to `antctl upgrade` / registry-wide environment before the add),
 `@listen` (port reported by the started node before the upgrade).
+`@count` / `@fail` / `key#i`: an add of several services, one of which fails (see `failOf`); `@case`: see `caseTable`.
 Values: `T` `F` booleans, `-` none, `s:<word>` some, `l:<w>,<w>` list (`l:` empty), `e:<Variant>` EVM network.
 -/
 namespace SafeNet.Driver.Upgrade
 open SafeNet.ArgTable SafeNet.Upgrade
 
-def parseVal (v : String) : Option Val :=
+/-- words are written with ` ` as `%20` and `%` as `%25` -/
+def unesc (s : String) : String := (s.replace "%20" " ").replace "%25" "%"
+def esc (s : String) : String := (s.replace "%" "%25").replace " " "%20"
+
+/-- `@case=l:Ü:ü,Ç:ç`: the non-ASCII capitals occurring in the line with their lower-case forms
+(computed by the harness with Rust's `char::to_lowercase`; the model only needs to know which
+characters the two foldings treat differently). -/
+def caseTable (raw : List (String × String)) : List (String × String) :=
+  match raw.lookup "@case" with
+  | some v =>
+    if v.startsWith "l:" then
+      ((v.drop 2).toString.splitOn ",").filterMap fun pr =>
+        match pr.splitOn ":" with
+        | [u, l] => some (unesc u, unesc l)
+        | _ => none
+    else []
+  | none => []
+
+def classify (tbl : List (String × String)) (s : String) : AStr :=
+  s.toList.map fun c =>
+    let cs := String.singleton c
+    if 'A' ≤ c ∧ c ≤ 'Z' then .asciiUp cs (String.singleton (Char.ofNat (c.toNat + 32)))
+    else match tbl.lookup cs with
+      | some l => .uniUp cs l
+      | none => .plain cs
+
+def parseVal (tbl : List (String × String)) (v : String) : Option Val :=
   if v = "T" then some (.bool true)
   else if v = "F" then some (.bool false)
   else if v = "-" then some (.opt none)
-  else if v.startsWith "s:" then some (.opt (some (v.drop 2).toString))
+  else if v.startsWith "s:" then some (.opt (some (classify tbl (unesc (v.drop 2).toString))))
   else if v.startsWith "l:" then
     let r := (v.drop 2).toString
-    some (.list (if r = "" then [] else r.splitOn ","))
+    some (.list (if r = "" then [] else (r.splitOn ",").map fun x => classify tbl (unesc x)))
   else if v.startsWith "e:" then some (.evm (v.drop 2).toString)
   else none
 
-def parseKV (w : String) : Option (String × Val) :=
+def splitKV (w : String) : Option (String × String) :=
   match w.splitOn "=" with
-  | k :: rest@(_ :: _) => (parseVal ("=".intercalate rest)).map fun v => (k, v)
+  | k :: rest@(_ :: _) => some (k, "=".intercalate rest)
   | _ => none
 
-def valuationOf (kvs : List (String × Val)) : Valuation :=
-  fun p => match kvs.lookup (".".intercalate p) with | some v => v | none => .opt none
+/-- valuation of service `i` of the add: `key#i` overrides `key` -/
+def valuationOf (tbl : List (String × String)) (raw : List (String × String)) (i : Nat) : Valuation :=
+  fun p =>
+    let k := ".".intercalate p
+    let v := match raw.lookup (k ++ "#" ++ toString i) with
+      | some v => some v
+      | none => raw.lookup k
+    match v.bind (parseVal tbl) with | some v => v | none => .opt none
 
-def optOf (kvs : List (String × Val)) (k : String) : Option String :=
-  match kvs.lookup k with | some (.opt o) => o | _ => none
+def optOf (tbl : List (String × String)) (raw : List (String × String)) (k : String) : Option AStr :=
+  match (raw.lookup k).bind (parseVal tbl) with | some (.opt o) => o | _ => none
+
+def natOf (raw : List (String × String)) (k : String) : Option Nat :=
+  match raw.lookup k with
+  | some v => if v.startsWith "s:" then (v.drop 2).toString.toNat? else none
+  | none => none
 
 def showVal : Val → String
   | .opt none => "-"
-  | v => asWord Gen.Upgrade.evmDisplay v
+  | v => esc (asWord Gen.Upgrade.evmDisplay v)
 
 def showSettings (xs : List (String × Val)) : String :=
   " ".intercalate ((xs.filter fun kv => kv.1 ≠ "contents" ∧ kv.1 ≠ "working_directory").map fun kv => kv.1 ++ "=" ++ showVal kv.2)
+
+def showArgs (items : List Item) : String := " ".intercalate ((argv items).map esc)
 
 def errClass : PErr → String
   | .unknown _ => "unknown" | .arity _ => "unknown" | .duplicate _ => "duplicate" | .positional => "unknown"
@@ -50,25 +90,53 @@ def verdict (items : List Item) : String :=
   | .ok _ => "ok"
   | .error e => "err:" ++ errClass e
 
-def setup (ws : List String) : Option (Valuation × Valuation) :=
-  match ws.mapM parseKV with
+/-- `@fail=s:install:K` (the K-th install is refused; the loop goes on) / `@fail=s:port:K` (the port lookup
+for the K-th service fails; `?` returns at once) -/
+def failOf (raw : List (String × String)) : Option (String × Nat) :=
+  match raw.lookup "@fail" with
+  | some v =>
+    match (v.drop 2).toString.splitOn ":" with
+    | [kind, k] => k.toNat?.map fun n => (kind, n)
+    | _ => none
   | none => none
-  | some kvs =>
-    let σ := withEnv (valuationOf kvs) (optOf kvs "@provided") (optOf kvs "@prev")
-    some (σ, afterStart (recordOf σ) (optOf kvs "@listen"))
+
+def outcomeOf (raw : List (String × String)) : AddOutcome :=
+  match failOf raw with
+  | some ("install", _) => .someFailed
+  | some (_, _) => .aborted
+  | none => .allInstalled
+
+def installedServices (raw : List (String × String)) : List Nat :=
+  let n := (natOf raw "@count").getD 1
+  let all := (List.range n).map (· + 1)
+  match failOf raw with
+  | some ("install", k) => all.filter (· ≠ k)
+  | some (_, k) => all.filter (· < k)
+  | none => all
+
+/-- (option record, registry entry at upgrade time) of service `i` -/
+def setup (raw : List (String × String)) (i : Nat) : Valuation × Valuation :=
+  let tbl := caseTable raw
+  let σ := withEnv (valuationOf tbl raw i) (optOf tbl raw "@provided") (optOf tbl raw "@prev") (outcomeOf raw)
+  (σ, afterStart (recordOf σ) (optOf tbl raw "@listen"))
 
 def step (_ : Unit) (ws : List String) : Unit × String :=
   match ws with
   | "cfg" :: rest =>
-    match setup rest with
+    match rest.mapM splitKV with
     | none => ((), "bad-op")
-    | some (σ, data) =>
-      ((), "I: " ++ " ".intercalate (argv (buildInstall σ)) ++ " | " ++ showSettings (installSettings σ) ++
-           " || U: " ++ " ".intercalate (argv (buildUpgrade data)) ++ " | " ++ showSettings (upgradeSettings data))
+    | some raw =>
+      let outs := (installedServices raw).map fun i =>
+        let (σ, data) := setup raw i
+        s!"S{i} I: " ++ showArgs (buildInstall σ) ++ " | " ++ showSettings (installSettings σ) ++
+           " || U: " ++ showArgs (buildUpgrade data) ++ " | " ++ showSettings (upgradeSettings data)
+      ((), if outs.isEmpty then "none" else " ;; ".intercalate outs)
   | "accept" :: rest =>
-    match setup rest with
+    match rest.mapM splitKV with
     | none => ((), "bad-op")
-    | some (σ, data) => ((), "I:" ++ verdict (buildInstall σ) ++ " U:" ++ verdict (buildUpgrade data))
+    | some raw =>
+      let (σ, data) := setup raw 1
+      ((), "I:" ++ verdict (buildInstall σ) ++ " U:" ++ verdict (buildUpgrade data))
   | _ => ((), "bad-op")
 
 /-- Model search (only used when a proof obligation broke): option records on which the regenerated
@@ -78,7 +146,9 @@ def base : List String :=
   ["service_name=s:antnode1", "service_data_dir_path=s:$R/data/antnode1", "service_log_dir_path=s:$R/log/antnode1",
    "service_antnode_path=s:$R/data/antnode1/antnode", "rpc_socket_addr=s:127.0.0.1:12001", "node_number=s:1",
    "options.rewards_address=s:0x03B770D9cD32077cC0bF330c13C114a87643B124", "options.version=s:0.1.0",
-   "options.user_mode=F"]
+   "options.user_mode=F", "options.auto_restart=F", "options.home_network=F", "options.upnp=F",
+   "options.peers_args.first=F", "options.peers_args.local=F", "options.peers_args.disable_mainnet_contacts=F",
+   "options.peers_args.ignore_cache=F", "@rpc_default_ip=T"]
 
 def singles : List (List String) := [
   ["options.evm_network=e:ArbitrumOne"],
@@ -92,7 +162,11 @@ def singles : List (List String) := [
   ["options.evm_network=e:ArbitrumOne", "options.node_ip=s:10.0.0.7"],
   ["options.evm_network=e:ArbitrumOne", "node_port=s:13001"],
   ["options.evm_network=e:ArbitrumOne", "metrics_free_port=s:14001"],
-  ["options.evm_network=e:ArbitrumOne", "owner=s:discord_user"],
+  ["options.evm_network=e:ArbitrumOne", "options.owner=s:Discord_user"],
+  ["options.evm_network=e:ArbitrumOne", "options.owner=s:Ünal_Çelik", "@case=l:Ü:ü,Ç:ç"],
+  ["options.evm_network=e:ArbitrumOne", "options.env_variables=s:A=1", "@count=s:2", "@fail=s:install:2",
+   "service_name#2=s:antnode2", "service_data_dir_path#2=s:$R/data/antnode2", "service_log_dir_path#2=s:$R/log/antnode2",
+   "service_antnode_path#2=s:$R/data/antnode2/antnode", "rpc_socket_addr#2=s:127.0.0.1:12002", "node_number#2=s:2"],
   ["options.evm_network=e:ArbitrumOne", "options.max_archived_log_files=s:5"],
   ["options.evm_network=e:ArbitrumOne", "options.max_log_files=s:9"],
   ["options.evm_network=e:ArbitrumOne", "options.peers_args.first=T"],
@@ -108,17 +182,19 @@ def singles : List (List String) := [
    "options.evm_network.data_payments_address=s:0x8464135c8F25Da09e49BC8782676a84730C318bC"]]
 
 def differs (ws : List String) : Bool :=
-  match setup ws with
+  match ws.mapM splitKV with
   | none => false
-  | some (σ, data) =>
-    let i := buildInstall σ
-    let u := buildUpgrade data
-    !(i.all u.contains && u.all i.contains && i.length == u.length) ||
-    (installSettings σ != upgradeSettings data) ||
-    verdict i != "ok" || verdict u != "ok"
+  | some raw =>
+    (installedServices raw).any fun n =>
+      let (σ, data) := setup raw n
+      let i := buildInstall σ
+      let u := buildUpgrade data
+      !(i.all u.contains && u.all i.contains && i.length == u.length) ||
+      (installSettings σ != upgradeSettings data) ||
+      verdict i != "ok" || verdict u != "ok"
 
 def searchCandidates : List String :=
-  (singles.filter fun s => differs (base ++ s)).flatMap fun s =>
-    [" ".intercalate ("cfg" :: base ++ s), " ".intercalate ("accept" :: base ++ s)]
+  (singles.filter fun s => differs (s ++ base)).flatMap fun s =>
+    [" ".intercalate ("cfg" :: s ++ base), " ".intercalate ("accept" :: s ++ base)]
 
 end SafeNet.Driver.Upgrade
